@@ -28,7 +28,8 @@ def run(c):
               "un-parenthesised operator chains), 15% a valid source with 1-2 token mutations, 15% arbitrary strings "
               "(random bytes, PromQL alphabet, token soup, deep nesting, unterminated constructs). Ops: real ParseExpr on the "
               "text vs model parser on its tokens; real String() (lexed) vs model printer; real ParseExpr on the printed text "
-              "vs model; real lexer on every string literal and on truncations of it vs the byte-level string model. non-trivial = accepted AND (a binary/unary directly under a binary/unary, i.e. precedence decided "
+              "vs model; real lexer on every string literal (and truncations), every number, duration and word token vs the "
+              "byte-level lexer models, parseDuration on every duration literal, `%ds` on every printed duration. non-trivial = accepted AND (a binary/unary directly under a binary/unary, i.e. precedence decided "
               "the grouping, or a modifier, subquery, matching clause, StatsHouse extension, or a string value whose last character "
               "the printer escapes); rejected and accepted sources are interleaved in one process, so the pooled parser is "
               "reused after failed parses; distinct by op-sequence hash")
@@ -43,7 +44,7 @@ def run(c):
     binary = c.go_build(HARNESS)
     if binary:
         gen(c, binary)
-    c.prove("SH.Props.C28", extra_files=["SH/Model/PromSyntax.lean", "SH/Lemmas/PromSyntaxSound.lean", "SH/Gen/C28.lean"])
+    c.prove("SH.Props.C28", extra_files=["SH/Model/PromSyntax.lean", "SH/Model/PromLex.lean", "SH/Lemmas/PromSyntaxSound.lean", "SH/Lemmas/PromLexNum.lean", "SH/Gen/C28.lean"])
     drv = c.driver(DRIVER)
     if binary and drv:
         rc, out = c.go_run(binary, ["-mode=corpus", f"-arg={CORPUS}"])
@@ -73,28 +74,36 @@ META = {
                   "byte-level model of string-literal lexing, + differential correspondence of all of them with the real lexer / "
                   "ParseExpr / String() + direct round-trip and no-panic oracle on the real code"),
     "text": ("Kernel-checked, about the model: (1) accepted_roundtrip - for EVERY token stream the lexer can produce (tokOk: word "
-             "kinds agree with the lexer's classification; no 0-second duration token) and every tree the parser accepts on it, "
-             "parsing the printed token sequence yields the same tree up to the duplicated metric-name matcher; it combines "
-             "parse_print (every well-formed tree round-trips, default fuel proved sufficient) with Lemmas/PromSyntaxSound.parse_wf "
-             "(every tree the parser returns is well-formed: induction over the parser's fuel with the precedence-climbing "
-             "invariants). zero_duration_needed shows the one exclusion is necessary. (2) norm_norm, print_norm, print_parse_print, "
-             "roundtrip_fixpoint: norm is idempotent, invisible to the printer, and one round trip reaches a fixed point; "
-             "normSel_mem/normSel_fields: norm keeps the matcher set and every other field. (3) lexical layer for strings: "
-             "lexString_renderQ / lexStringTok_quoted - the model of lexString/lexEscape scans any %q-shaped body (plain bytes, "
-             "two-character escapes, \\xHH, \\uHHHH, \\UHHHHHHHH) to exactly its closing quote; string_token_roundtrip gives "
-             "the literal's value back under the explicit hypothesis unquote(quote v) = v; extra_rune_breaks_last_escape is the "
-             "seeded lexer bug as a `decide` witness. `decide` witnesses show the printer before the fix violated the property in six "
-             "ways. Ties: per generated source the real ParseExpr (accept/reject, tree), the real String() (token sequence), the real "
-             "lexer on every string literal and truncations of it (op lexstr) are replayed on the compiled models; the hypotheses "
-             "tokOk (line `lex`) and wf (line `wf`) are evaluated by the driver on every real token stream / returned tree."),
-    "note": ("Partial: lexing of numbers and durations is not modelled (their printed text round trip is correspondence/oracle only; "
-             "`@` timestamps rendered exactly for |ms| < 2^52); the contract of strconv.Quote / strutil.Unquote is a hypothesis of "
-             "string_token_roundtrip, discharged by the round-trip oracle only; the order in which matchers are printed is not "
-             "modelled; 'never panics' is the direct oracle only (escaping panics and runtime panics recovered inside ParseExpr). "
-             "Trusted: Lean kernel; the reading of 'equivalent tree' (position fields ignored, matchers as a set, nil = empty list, "
-             "NaNs identified); the correspondence on generated inputs (quick 6000, thorough 150000 sources + corpus). Known "
-             "finding zero-duration: a range or list offset below 500ms is stored as 0 seconds, which no duration literal denotes "
-             "(excluded from accepted_roundtrip by an explicit hypothesis, with witness). The printer defects found in round 1 "
-             "are fixed in /repo (fixes/C28-printer-roundtrip.diff)."),
+             "kinds agree with the lexer's classification; no duration token of 0 or of more than 9223372036 seconds) and every "
+             "tree the parser accepts on it, parsing the printed token sequence yields the same tree up to the duplicated "
+             "metric-name matcher; it combines parse_print (every well-formed tree round-trips, default fuel proved sufficient) with "
+             "Lemmas/PromSyntaxSound.parse_wf (every tree the parser returns is well-formed). zero_duration_needed and "
+             "duration_out_of_range_needed show the two exclusions are necessary. (2) norm_norm, print_norm, print_parse_print, "
+             "roundtrip_fixpoint: norm is idempotent, invisible to the printer, one round trip reaches a fixed point. (3) lexical "
+             "layer, byte level (Model/PromLex, Lemmas/PromLexNum): duration_literal_roundtrip - the printed `<n>s` is cut as one "
+             "DURATION token by lexNumberOrDuration and by lexDuration and parseDuration (model.ParseDuration + zero test + "
+             "rounding) gives n back, for every 1 <= n <= 9223372036, via a digit-list round trip (natDigits_spec); "
+             "duration_bounds_unprintable - n = 0 and n = 9223372037 have no literal although `0s400ms` / `9223372036s800ms` "
+             "parse to them; number_literal_roundtrip - scanNumber consumes exactly any text of the shapes fmt.Sprint(float64) "
+             "writes (digits, .digits, e+-dd) and the token's value is x under the explicit hypothesis number(format x) = x; "
+             "inf_nan_tokens - Inf/NaN are words the keyword table makes NUMBER tokens; lexString_renderQ / string_token_roundtrip "
+             "- a %q body is scanned to exactly its closing quote, value back under the explicit hypothesis unquote(quote v) = v; "
+             "extra_rune_breaks_last_escape is the seeded lexer bug as a `decide` witness. `decide` witnesses show the printer "
+             "before the fix violated the property in six ways. Ties: per generated source the real ParseExpr (accept/reject, "
+             "tree), the real String() (token sequence), and the real lexer on every string, number, duration and word token "
+             "(ops lexstr, lexnum, lexdur, lexword), parseDuration on every duration literal (pdur), `%ds` (durtext) are replayed "
+             "on the compiled models; the hypotheses tokOk (line `lex`) and wf (line `wf`) are evaluated by the driver on every "
+             "real token stream / returned tree."),
+    "note": ("Partial: the two library contracts strconv.Quote/strutil.Unquote and fmt.Sprint(float64)/number (ParseInt, "
+             "ParseFloat) are explicit hypotheses of string_token_roundtrip / number_literal_roundtrip, discharged by the "
+             "round-trip oracle only; the lexical theorems are per token class (the lexer's treatment of blanks, operators, "
+             "brace/bracket modes over the WHOLE printed text is not modelled, so accepted_roundtrip is not yet composed into one "
+             "character-level statement); parseDuration's float rounding is modelled exactly, which agrees with the code below "
+             "2^59 ns (18 years) - `100y500ms` rounds down in the code; `@` timestamps rendered exactly for |ms| < 2^52; the order "
+             "in which matchers are printed is not modelled; 'never panics' is the direct oracle only. Trusted: Lean kernel; the "
+             "reading of 'equivalent tree'; the correspondence on generated inputs (quick 6000, thorough 150000 sources + corpus). "
+             "Known findings (rounding in parser.parseDuration after its validity tests): zero-duration (a range or list offset "
+             "below 500ms becomes 0 seconds) and duration-out-of-range (a duration in [9223372036.5s, 2^63ns) becomes 9223372037 "
+             "seconds); neither value has a literal. The printer defects found in round 1 are fixed in /repo."),
     "design_ref": "DESIGN.md §6 C28",
 }
